@@ -3,6 +3,7 @@ L1 list.h / slist.h primitives on symbolic heaplets for every aliasing case of t
 Q1 recycle / allocate pairing, Q2 no by-value copy of an object holding its own address, Q3 node-pool bounds,
 Q5 count pairing (PATH over que.c)."""
 import itertools
+import sympy as sp
 import llir, symx, shape, alg, path, effects
 from shape import Heap, HeapDom
 from symx import Ptr, Unsupported, NULL, TOP
@@ -253,6 +254,8 @@ def run(ctx):
     rep.floor('Q5', 3)
     rep.floor('Q6', 2)
     rep.floor('Q7', 3)
+    rep.floor('Q8', 3)
+    rep.floor('Q10', 6)
 
 
 # ---------------------------------------------------------------- slist
@@ -527,6 +530,8 @@ def queue(ctx):
     # ---- Q3: pool index bounds: ptr_[--cur_] only under cur_ != 0; ptr_[cur_++] only under cur_ < mem_
     q3(ctx, fns, m)
     q6(ctx, fns, m, numidx)
+    q8(ctx, fns, m)
+    q10(ctx, fns, lookup_in([m, ctx.module('hdr_unit')]))
     import sortguard
     for n_, lim, what in (('a_que_push_sort', 1, 'after the count was incremented one element is already enqueued and must be compared'),
                           ('a_que_sort_fore', 1, 'two elements may be out of order'), ('a_que_sort_back', 1, 'two elements may be out of order')):
@@ -817,3 +822,274 @@ def q3(ctx, fns, m):
                 rep.ok('Q3', n, '%d pool accesses: pop at cur_-1 under cur_ != 0; push at cur_ under cur_ < mem_ or after growing to size_up(8, mem_ + mem_/2 + 1) > cur_' % nacc, loc=loc)
         except Unsupported as e:
             rep.unk('Q3', n, str(e), loc=loc)
+
+
+def q8(ctx, fns, m):
+    """Q8: the positional walks: a_que_at walks forward from head.next counting 0,1,2,.. for idx >= 0 and backward from head.prev
+    counting -1,-2,.. for idx < 0, stops at the sentinel (null) and returns the payload (node + 1) of the node whose position equals
+    idx; the walks of a_que_insert / a_que_remove start at head.next and advance through next"""
+    rep = ctx.rep
+
+    def field_of_head(f, v, ctxn):
+        """v = load (gep (gep ctx,0,0), 0, k) -> k ; head_ is field 0 of the queue"""
+        d = f.defs.get(v.v) if v.k == 'reg' else None
+        if d is None or d.op != 'load' or d.ops[0].k != 'reg':
+            return None
+        g = f.defs.get(d.ops[0].v)
+        if g is None or g.op != 'gep' or len(g.ops) != 3 or g.ops[2].k != 'int' or g.ops[0].k != 'reg':
+            return None
+        h = f.defs.get(g.ops[0].v)
+        if h is None or h.op != 'gep' or h.ops[0].k != 'reg' or h.ops[0].v != ctxn or len(h.ops) != 3 or h.ops[2].k != 'int' or h.ops[2].v != 0:
+            return None
+        return g.ops[2].v
+
+    def field_of(f, v, base):
+        d = f.defs.get(v.v) if v.k == 'reg' else None
+        if d is None or d.op != 'load' or d.ops[0].k != 'reg':
+            return None
+        g = f.defs.get(d.ops[0].v)
+        if g is None or g.op != 'gep' or len(g.ops) != 3 or g.ops[2].k != 'int' or g.ops[0].k != 'reg' or g.ops[0].v != base:
+            return None
+        return g.ops[2].v
+
+    def walks(f):
+        """[(header, it phi, start field, advance field, counter phi|None, init, step, compared ('old'|'new'|None), returns)]"""
+        out = []
+        ctxn = f.params[0][1]
+        for h, body, lat in f.loops():
+            phis = [i for i in h.instrs if i.op == 'phi']
+            itp = [p for p in phis if p.ty.is_ptr]
+            cnt = [p for p in phis if p.ty.is_int]
+            if len(itp) != 1:
+                continue
+            it = itp[0]
+            init = [o for o, lb in zip(it.ops, it.x['labels']) if f.bmap[lb] not in body]
+            nxt = [o for o, lb in zip(it.ops, it.x['labels']) if f.bmap[lb] in body]
+            if len(init) != 1 or len(nxt) != 1:
+                continue
+            start = field_of_head(f, init[0], ctxn)
+            adv = field_of(f, nxt[0], it.res)
+            w = dict(header=h, it=it, start=start, adv=adv, cnt=None)
+            if len(cnt) == 1:
+                c = cnt[0]
+                ci = [o for o, lb in zip(c.ops, c.x['labels']) if f.bmap[lb] not in body]
+                cn = [o for o, lb in zip(c.ops, c.x['labels']) if f.bmap[lb] in body]
+                dn = f.defs.get(cn[0].v) if cn and cn[0].k == 'reg' else None
+                step = dn.ops[1].v if dn is not None and dn.op == 'add' and dn.ops[0].k == 'reg' and dn.ops[0].v == c.res and dn.ops[1].k == 'int' else None
+                cmpd = None
+                for i in f.instrs():
+                    if i.op == 'icmp' and i.x['pred'] in ('eq', 'ne') and i.block in body:
+                        ops = {(o.k, o.v) for o in i.ops}
+                        if ('reg', f.params[1][1]) in ops:
+                            if ('reg', c.res) in ops:
+                                cmpd = 'old'
+                            elif dn is not None and ('reg', dn.res) in ops:
+                                cmpd = 'new'
+                w.update(cnt=c, init=(ci[0].v if ci and ci[0].k == 'int' else None), step=step, cmpd=cmpd)
+            out.append(w)
+        return out
+    f = fns.get('a_que_at')
+    if f is None:
+        rep.unk('Q8', 'a_que_at', 'anchor vanished')
+    else:
+        ws = walks(f)
+        fw = [w for w in ws if w['start'] == 0]
+        bw = [w for w in ws if w['start'] == 1]
+        probs = []
+        if len(fw) != 1 or len(bw) != 1:
+            probs.append('expected one walk from head.next and one from head.prev, found %d and %d' % (len(fw), len(bw)))
+        else:
+            a, b = fw[0], bw[0]
+            if a['adv'] != 0:
+                probs.append('the forward walk does not advance through next')
+            if b['adv'] != 1:
+                probs.append('the backward walk does not advance through prev')
+            if a['cnt'] is None or (a['init'], a['step'], a['cmpd']) != (0, 1, 'old'):
+                probs.append('forward positions are not 0,1,2,..: counter starts at %s, steps by %s and the %s value is compared with idx' % (a.get('init'), a.get('step'), a.get('cmpd')))
+            if b['cnt'] is None or (b['init'], b['step'], b['cmpd']) != (0, -1, 'new'):
+                probs.append('backward positions are not -1,-2,..: counter starts at %s, steps by %s and the %s value is compared with idx' % (b.get('init'), b.get('step'), b.get('cmpd')))
+            # which walk is taken: idx >= 0 forward
+            e = f.entry.term
+            d = f.defs.get(e.ops[0].v) if e.op == 'br' and e.ops and e.ops[0].k == 'reg' else None
+            okdir = False
+            if d is not None and d.op == 'icmp' and d.ops[0].k == 'reg' and d.ops[0].v == f.params[1][1] and d.ops[1].k == 'int':
+                t_, f_ = [f.bmap[l] for l in e.x['labels']]
+                nonneg = {('sge', 0): True, ('sgt', -1): True, ('slt', 0): False, ('sle', -1): False}.get((d.x['pred'], d.ops[1].v if d.ops[1].v < 2 ** 63 else d.ops[1].v - 2 ** 64))
+                if nonneg is not None:
+                    fwd_blk, bwd_blk = (t_, f_) if nonneg else (f_, t_)
+                    okdir = f.reachable(fwd_blk, a['header']) and not f.reachable(fwd_blk, b['header']) and f.reachable(bwd_blk, b['header']) and not f.reachable(bwd_blk, a['header'])
+            if not okdir:
+                probs.append('the walk direction is not chosen by idx >= 0 (forward) / idx < 0 (backward)')
+            # returned values: payload of the current node or null
+            rets = [i for i in f.instrs() if i.op == 'ret']
+            for r in rets:
+                v = r.ops[0]
+                vals = []
+                d = f.defs.get(v.v) if v.k == 'reg' else None
+                if d is not None and d.op == 'phi':
+                    vals = list(d.ops)
+                else:
+                    vals = [v]
+                for o in vals:
+                    if o.k == 'null':
+                        continue
+                    o2 = path.strip_casts(f, o)
+                    g = f.defs.get(o2.v) if o2.k == 'reg' else None
+                    base = path.strip_casts(f, g.ops[0]) if g is not None and g.op == 'gep' else None
+                    bd = f.defs.get(base.v) if base is not None and base.k == 'reg' else None
+                    while bd is not None and bd.op == 'phi' and len(bd.ops) == 1:
+                        base = bd.ops[0]
+                        bd = f.defs.get(base.v) if base.k == 'reg' else None
+                    if g is None or g.op != 'gep' or len(g.ops) != 2 or g.ops[1].k != 'int' or g.ops[1].v != 1 or base.v not in (a['it'].res, b['it'].res):
+                        probs.append('a returned value is not the payload (node + 1) of the node the walk stands on')
+        (rep.bad if probs else rep.ok)('Q8', 'a_que_at', '; '.join(probs[:3]) or 'forward from head.next with positions 0,1,2,.., backward from head.prev with positions -1,-2,..; '
+                                       'returns the payload of the node at position idx or null at the sentinel', **({'key': 'a_que_at: positional walk', 'loc': f.loc(f.entry.term)} if probs else {}))
+    for n in ('a_que_insert', 'a_que_remove'):
+        f = fns.get(n)
+        if f is None:
+            rep.unk('Q8', n, 'anchor vanished')
+            continue
+        ws = [w for w in walks(f) if w['cnt'] is not None]
+        probs = []
+        if len(ws) != 1:
+            probs.append('expected one positional walk, found %d' % len(ws))
+        else:
+            w = ws[0]
+            if w['start'] != 0 or w['adv'] != 0:
+                probs.append('the walk does not go from head.next through next (start field %s, advance field %s)' % (w['start'], w['adv']))
+            if (w['init'], w['step'], w['cmpd']) != (0, 1, 'old'):
+                probs.append('positions are not 0,1,2,..')
+        (rep.bad if probs else rep.ok)('Q8', n, '; '.join(probs) or 'walks from head.next through next with positions 0,1,2,..', **({'key': '%s: positional walk' % n, 'loc': f.loc(f.entry.term)} if probs else {}))
+
+
+# ---------------------------------------------------------------- Q10: queue ends and the linking / unlinking action of the positional walks
+class QDom(HeapDom):
+    """a_que_new_ hands out the floating node N (or fails), a_que_die_ recycles (or fails): summaries justified by Q1/Q3/Q5 and C07"""
+    def __init__(self, new_ok=True, die_ok=True):
+        HeapDom.__init__(self)
+        self.new_ok, self.die_ok = new_ok, die_ok
+        self.died = []
+
+    def call(self, name, args, ins, interp, st, fn):
+        if name == 'a_que_new_':
+            return Ptr('N', 0) if self.new_ok else NULL
+        if name == 'a_que_die_':
+            self.died.append(args[1])
+            return sp.Integer(0) if self.die_ok else sp.Integer(4)
+        return HeapDom.call(self, name, args, ins, interp, st, fn)
+
+    def nonnull(self, base):
+        return not base.startswith('?')
+
+
+def q10(ctx, fns, lk):
+    rep = ctx.rep
+    rings = [[], ['A1'], ['A1', 'A2'], ['A1', 'SA', 'A2']]
+    SZ = 16
+
+    def heap_of(r):
+        h = Heap()
+        names = ['ctx'] + r
+        h.ring(names)
+        h.node('N')
+        return h, names
+
+    def run1(fn, r, new_ok=True, die_ok=True):
+        h, names = heap_of(r)
+        dom = QDom(new_ok, die_ok)
+        it = symx.Interp(dom, lk, inline=lambda n: n not in ('a_que_new_', 'a_que_die_'))
+        lv = it.run(fn, [Ptr('ctx', 0)] + [sp.Symbol('arg%d' % k, integer=True, nonnegative=True) for k in range(len(fn.params) - 1)], h.state())
+        return h, names, dom, lv
+    ends = {
+        'a_que_push_fore': lambda r: (['ctx', 'N'] + r, Ptr('N', SZ), None),
+        'a_que_push_back': lambda r: (['ctx'] + r + ['N'], Ptr('N', SZ), None),
+        'a_que_pull_fore': lambda r: ((['ctx'] + r[1:], Ptr(r[0], SZ), r[0]) if r else (['ctx'], NULL, None)),
+        'a_que_pull_back': lambda r: ((['ctx'] + r[:-1], Ptr(r[-1], SZ), r[-1]) if r else (['ctx'], NULL, None)),
+    }
+    for name, exp in ends.items():
+        fn = fns.get(name)
+        if fn is None:
+            rep.unk('Q10', name, 'anchor vanished')
+            continue
+        probs, n = [], 0
+        for r in rings:
+            try:
+                # success
+                h, names, dom, lv = run1(fn, r)
+                want, ret, dead = exp(r)
+                orig = orig_of([names])
+                for lf in lv:
+                    n += 1
+                    pr = check_ring(lf, h, 'ctx', want, orig)
+                    if not (isinstance(lf.ret, Ptr) and lf.ret == ret):
+                        pr.append('returns %s, expected %s' % (lf.ret, ret))
+                    if dead is not None and not (dom.died and isinstance(dom.died[-1], Ptr) and dom.died[-1].base == dead):
+                        pr.append('recycles %s, expected %s' % (dom.died[-1:] or 'nothing', dead))
+                    touched = shape.touched_summary(lf, h)
+                    if touched:
+                        pr.append('reads inside the queue (%s)' % touched)
+                    probs += ['ring %s: %s' % (r, x) for x in pr]
+                # failure of the allocation / recycling step: nothing changes, null returned
+                h, names, dom, lv = run1(fn, r, new_ok=False, die_ok=False)
+                for lf in lv:
+                    n += 1
+                    pr = check_ring(lf, h, 'ctx', names, orig_of([names]))
+                    if not (isinstance(lf.ret, Ptr) and lf.ret.base == 'null'):
+                        pr.append('returns %s although the node step failed' % (lf.ret,))
+                    probs += ['ring %s (failing step): %s' % (r, x) for x in pr]
+            except Unsupported as e:
+                probs.append('ring %s: outside the domain: %s' % (r, e))
+        (rep.bad if probs else rep.ok)('Q10', name, '; '.join(probs[:2]) or '%d cases: links the new node / unlinks the end node at the documented end, returns its payload, leaves the ring alone on failure' % n,
+                                       **({'key': '%s: end of the queue' % name, 'loc': fn.loc(fn.entry.term)} if probs else {}))
+    # the action of the positional walks at the position found: one iteration with the counter equal to idx
+    for name in ('a_que_insert', 'a_que_remove'):
+        fn = fns.get(name)
+        if fn is None:
+            rep.unk('Q10', name, 'anchor vanished')
+            continue
+        loops = [l for l in fn.loops()]
+        if len(loops) != 1:
+            rep.unk('Q10', name, 'expected one walk')
+            continue
+        header = loops[0][0]
+        phis = [i for i in header.instrs if i.op == 'phi']
+        itp = [p for p in phis if p.ty.is_ptr]
+        cnp = [p for p in phis if p.ty.is_int]
+        if len(itp) != 1 or len(cnp) != 1:
+            rep.unk('Q10', name, 'walk does not carry (node, position)')
+            continue
+        probs, n = [], 0
+        for r, at in ((['A1'], 'A1'), (['A1', 'A2'], 'A1'), (['A1', 'A2'], 'A2'), (['A1', 'SA', 'A2'], 'A2'), (['A1', 'SA', 'A2'], 'A1')):
+            h, names = heap_of(r)
+            dom = QDom()
+            it = symx.Interp(dom, lk, inline=lambda n_: n_ not in ('a_que_new_', 'a_que_die_'))
+            idx = sp.Symbol('idx', integer=True, nonnegative=True)
+            env0 = {itp[0].res: Ptr(at, 0), cnp[0].res: idx}
+            # values defined before the loop: the fresh node of insert
+            for i in fn.instrs():
+                if i.op == 'call' and i.x.get('callee') is not None and i.x['callee'].k == 'global' and i.x['callee'].v == 'a_que_new_' and i.res:
+                    env0[i.res] = Ptr('N', 0)
+            try:
+                ro, rets = it.run_region(fn, [Ptr('ctx', 0), idx], header, env0, [header], st=h.state())
+            except Unsupported as e:
+                probs.append('ring %s at %s: %s' % (r, at, e))
+                continue
+            k = r.index(at)
+            if name == 'a_que_insert':
+                want, ret = ['ctx'] + r[:k] + ['N'] + r[k:], Ptr('N', SZ)
+            else:
+                want, ret = ['ctx'] + r[:k] + r[k + 1:], Ptr(at, SZ)
+            found = False
+            for s_, rv in rets:
+                # the path on which the position matched
+                n += 1
+                found = True
+                lf = symx.Leaf(s_.pc, rv, s_.store, {}, s_.calls, s_.trace, s_.pc_raw, s_.offs, None, s_.reads)
+                pr = check_ring(lf, h, 'ctx', want, orig_of([names]))
+                if not (isinstance(rv, Ptr) and rv == ret):
+                    pr.append('returns %s, expected %s' % (rv, ret))
+                probs += ['ring %s at %s: %s' % (r, at, x) for x in pr]
+            if not found:
+                probs.append('ring %s at %s: no path acts on the node whose position equals idx' % (r, at))
+        (rep.bad if probs else rep.ok)('Q10', name, '; '.join(probs[:2]) or '%d cases: the new node is linked directly before / the node is unlinked at the position found' % n,
+                                       **({'key': '%s: action at the position' % name, 'loc': fn.loc(header.term)} if probs else {}))
